@@ -27,7 +27,7 @@ from .. import worlds, simreads, tables, repo
 
 SPEC_A = worlds.WorldSpec(("+", "-"), True, False, 0, "rich")
 SPEC_B = worlds.WorldSpec(("-", "+"), True, False, 1, "rich")
-SAMPLE = (("normal", "1.002"), ("normal", "2.002"))
+SAMPLE = (("left:e2", "2.002"), ("normal", "10.001"))      # carries a fused copy, so that structure-dependent code runs
 SAMPLE_B = (("normal", "3.001"), ("normal", "10.001"))
 
 
@@ -97,12 +97,12 @@ class Ctx:
             gene = Gene(paths["A"], genome="hg19")
             profile = Profile.load(gene, paths["prof"], None)
             sample = Sample(gene, profile, paths["sample"])
-            paths["template"] = (gene, profile, sample)
-            paths["fresh"] = (gene_digest(gene), cov_digest(sample.coverage))
-        tg, tp, ts = paths["template"]
+            paths["template"] = (gene, profile, sample, Gene(paths["D"], genome="hg19"))
+            paths["fresh"] = (gene_digest(gene) + gene_digest(paths["template"][3]), cov_digest(sample.coverage))
+        tg, tp, ts, td = paths["template"]
         # the template is never operated on; every history works on its own deep copy
-        assert (gene_digest(tg), cov_digest(ts.coverage)) == paths["fresh"], "template changed"
-        self.gene, self.profile, self.sample = copy.deepcopy((tg, tp, ts))
+        assert (gene_digest(tg) + gene_digest(td), cov_digest(ts.coverage)) == paths["fresh"], "template changed"
+        self.gene, self.profile, self.sample, self.geneD = copy.deepcopy((tg, tp, ts, td))
         self.cov = self.sample.coverage
         self.cn = self.major = self.minor = None
         self.fresh_gene, self.fresh_cov = paths["fresh"]
@@ -111,7 +111,7 @@ class Ctx:
         return tuple(k for k in ("cn", "major", "minor") if getattr(self, k) is not None)
 
     def digest(self):
-        return (gene_digest(self.gene), cov_digest(self.cov), self.held())
+        return (gene_digest(self.gene) + gene_digest(self.geneD), cov_digest(self.cov), self.held())
 
 
 _PATHS = {}
@@ -131,17 +131,23 @@ def build_files():
     pa = os.path.join(d, "gena.yml")
     pb = os.path.join(d, "genb.yml")
     pc = os.path.join(d, "genc.yml")
+    pd_ = os.path.join(d, "gend.yml")
     with open(pa, "w") as f:
         f.write(wa.yaml_text().replace("name: GEN\n", "name: GENA\n").replace("- GEN\n", "- GENA\n"))
     with open(pb, "w") as f:
         f.write(wb.yaml_text().replace("name: GEN\n", "name: GENB\n").replace("- GEN\n", "- GENB\n").replace("[GEN, ", "[GENB, ").replace("- - GEN\n", "- - GENB\n"))
     with open(pc, "w") as f:
         f.write(wa.yaml_text().replace("name: GEN\n", "name: GENC\n").replace("- GEN\n", "- GENC\n"))
+    # gene D: the same locus and alleles as A, but the two left fusions have their break points swapped -
+    # identical allele names and coordinates, different structures (a cache keyed too coarsely would confuse them)
+    with open(pd_, "w") as f:
+        f.write(wa.yaml_text().replace("name: GEN\n", "name: GEND\n").replace("- GEN\n", "- GEND\n")
+                .replace("- e2-\n", "- @@\n").replace("- i2-\n", "- e2-\n").replace("- @@\n", "- i2-\n"))
     sim = simreads.Simulator(wa, "hg19")
     prof_bam = os.path.join(d, "prof.bam")
     simreads.write_bam(prof_bam, sim.profile_reads(100, 20))
     regions = {}
-    for p in (pa, pb):
+    for p in (pa, pb, pd_):
         g = Gene(p, genome="hg19")
         for gi, gr in enumerate(g.regions):
             for r, rng in gr.items():
@@ -152,8 +158,44 @@ def build_files():
         f.write(yaml.dump(data, default_flow_style=None))
     sample = os.path.join(d, "sample.bam")
     simreads.write_bam(sample, sim.sample_reads(list(SAMPLE), 100, 20))
-    _PATHS.update({"pid": os.getpid(), "A": pa, "B": pb, "C": pc, "prof": prof, "sample": sample, "dir": d})
+    _PATHS.update({"pid": os.getpid(), "A": pa, "B": pb, "C": pc, "D": pd_, "prof": prof, "sample": sample, "dir": d})
     return _PATHS
+
+
+GCALLS = (("illumina", None, {}), ("illumina", "R1", {}), ("illumina", "R2", {}), ("wgs", None, {}), ("illumina", None, {"gap": 0.1}),
+          ("wgs", "R2", {"gap": 0.1}))
+
+
+def nat2_files(P):
+    """A simulated NAT2 sample at its real hg19 coordinates with reads in the default copy-number-neutral
+    region (chr22) and in a custom one, for genotype() calls through the shipped 'illumina' profile."""
+    import pysam
+    from aldy.common import GRange
+    if "nat2" in P:
+        return P["nat2"]
+    gene = worlds.gene_of(("shipped", "nat2"), "hg19")
+    gs = simreads.GeneSimulator(gene)
+    a = gene.alleles["5"] if "5" in gene.alleles else list(gene.alleles.values())[1]
+    var = sorted({(m.pos, m.op) for m in a.func_muts} | {(m.pos, m.op) for m in a.minors[sorted(a.minors)[0]].neutral_muts})
+    reads8 = gs.sample([[], var], 100, 20)
+    ns, ne = 42547463, 42548249
+    fill = worlds.lcg_seq(23, 2000)
+    ev = [("M", p_, fill[(p_ - ns) % len(fill)]) for p_ in range(ns - 300, ne + 300)]
+    reads22 = simreads.tile(ev, 100, 40, "d22")
+    path = os.path.join(P["dir"], "nat2.bam")
+    hdr = {"HD": {"VN": "1.0", "SO": "coordinate"}, "SQ": [{"SN": "8", "LN": gs.chrlen}, {"SN": "22", "LN": 51304566}]}
+    with pysam.AlignmentFile(path, "wb", header=hdr) as f:
+        for rid, reads in ((0, reads8), (1, reads22)):
+            for n, pos, sq, cg in sorted(reads, key=lambda r: (r[1], r[0])):
+                x = pysam.AlignedSegment()
+                x.query_name, x.query_sequence, x.flag, x.reference_id, x.reference_start = n, sq, 0, rid, pos
+                x.mapping_quality, x.cigarstring = 60, cg
+                x.query_qualities = pysam.qualitystring_to_array("I" * len(sq))
+                f.write(x)
+    pysam.index(path)
+    r1 = gs.neutral_region()
+    P["nat2"] = (path, {"R1": r1, "R2": GRange(r1.chr, r1.start + 50, r1.start + 350)})
+    return P["nat2"]
 
 
 CLASSES = ("Gene", "MajorAllele", "MinorAllele", "CNConfig", "CNSolution", "SolvedAllele", "MajorSolution", "MinorSolution", "Coverage")
@@ -162,7 +204,7 @@ SKIP = {("Coverage", "dump"), ("MinorSolution", "set_diplotype")}
 
 def class_objects(ctx):
     g = ctx.gene
-    out = {"Gene": g, "MajorAllele": g.alleles["2"], "MinorAllele": g.alleles["2"].minors["2.002"],
+    out = {"Gene": g, "Gene@D": ctx.geneD, "MajorAllele": g.alleles["2"], "MinorAllele": g.alleles["2"].minors["2.002"],
            "CNConfig": g.cn_configs["1"], "Coverage": ctx.cov}
     if ctx.cn:
         out["CNSolution"] = ctx.cn[0]
@@ -182,10 +224,14 @@ def arg_menu(ctx):
     g = ctx.gene
     m = sorted(g.mutations)[0]
     mm = Mutation(*m)
+    e2pos = g.regions[0]["e2"].start + 10
     menu = [(), (mm,), (m[0],), (m[0], m[1]), ("2",), ("2.002",), ("2", m[0]), (0, "e1"), (0,), (-1,), (ctx.cov,),
             (Coverage.quality_filter,), ((m[0], m[1]),), ("1.002",)]
     if ctx.cn:
         menu += [(ctx.cn[0],), (mm, ctx.cn[0]), (m[0], ctx.cn[0])]
+    else:
+        menu += [(None,), (None, None), (None, None)]
+    menu += [("12#1", e2pos), ("13", e2pos), (e2pos,)]       # a fused allele at a position only one of the two genes retains
     return menu
 
 
@@ -200,9 +246,10 @@ def arg_indices(cls_name, name, member):
     req = len([p for p in params if p.default is inspect._empty and p.kind in (p.POSITIONAL_ONLY, p.POSITIONAL_OR_KEYWORD)])
     var = any(p.kind == p.VAR_POSITIONAL for p in params)
     mx = len([p for p in params if p.kind in (p.POSITIONAL_ONLY, p.POSITIONAL_OR_KEYWORD)])
-    lens = [0, 1, 1, 2, 1, 1, 2, 2, 1, 1, 1, 1, 1, 1, 1, 2, 2]
+    lens = [0, 1, 1, 2, 1, 1, 2, 2, 1, 1, 1, 1, 1, 1, 1, 2, 2, 2, 2, 1]
     idx = [i for i, n in enumerate(lens) if (req <= n <= mx) or (var and n >= max(req, 1))]
-    return idx[:6] if idx else [0]
+    keep = idx[:6] + [i for i in idx[6:] if i >= 17]
+    return keep if keep else [0]
 
 
 def accessor_alphabet():
@@ -224,6 +271,9 @@ def accessor_alphabet():
             if isinstance(member, property) or callable(member):
                 for ai in arg_indices(cn_, name, member):
                     out.append((cn_, name, ai))
+                    if cn_ == "Gene" and name in ("has_coverage", "region_at", "get_functional", "is_functional", "get_rsid", "get_refseq",
+                                                  "get_allele", "deletion_allele", "get_wide_region", "__contains__", "__getitem__"):
+                        out.append(("Gene@D", name, ai))       # the same member on a second gene held in the process
     return out
 
 
@@ -279,6 +329,8 @@ def run_op(ctx, op):
         if cls not in objs:
             return ("disabled",)
         o = objs[cls]
+        if ai < len(arg_menu(ctx)) and any(a is None for a in arg_menu(ctx)[ai]):
+            return ("disabled",)
         member = inspect.getattr_static(type(o), name, None)
         try:
             if isinstance(member, property):
@@ -298,9 +350,34 @@ def run_op(ctx, op):
             return h(canon(r))
         except Exception as ex:
             return ("exc", type(ex).__name__)
+    if kind == "gload":
+        # profile + sample loading through the public API: normalised region depths
+        from aldy.profile import Profile
+        from aldy.sam import Sample
+        prof, rk, params = GCALLS[op[1]]
+        path, regs = nat2_files(P)
+        g_ = worlds.gene_of(("shipped", "nat2"), "hg19")
+        try:
+            pr = Profile.load(g_, "illumina" if prof == "wgs" else prof, regs[rk] if rk else None, **params)
+            sm = Sample(g_, pr, path)
+            return ("gload", h(canon({k: round(v_, 6) for k, v_ in sm.coverage._region_coverage.items()})), round(pr.neutral_value, 3))
+        except AldyException as ex:
+            return ("gload", "error", str(ex)[:40])
+    if kind == "gcall":
+        prof, rk, params = GCALLS[op[1]]
+        path, regs = nat2_files(P)
+        out = os.path.join(P["dir"], f"gcall_{os.getpid()}.aldy")
+        with open(out, "w") as fh:
+            try:
+                res = genotype("nat2", path, prof, output_file=fh, cn_region=regs[rk] if rk else None, genome="hg19", **params)
+                dig = sol_digest(list(res.values())[0])
+            except AldyException as ex:
+                dig = ("error", str(ex)[:60])
+        return ("gcall", h(canon(dig)), h(open(out).read()))
     if kind == "genotype":
         which = op[1]
-        dbs = {"A": P["A"], "B": P["B"], "AB": P["A"] + "," + P["B"], "ACB": P["A"] + "," + P["C"] + "," + P["B"], "BA": P["B"] + "," + P["A"]}[which]
+        dbs = {"A": P["A"], "B": P["B"], "D": P["D"], "AB": P["A"] + "," + P["B"], "ACB": P["A"] + "," + P["C"] + "," + P["B"],
+               "BA": P["B"] + "," + P["A"], "AD": P["A"] + "," + P["D"], "DA": P["D"] + "," + P["A"]}[which]
         out = os.path.join(P["dir"], f"out_{os.getpid()}.aldy")
         with open(out, "w") as fh:
             try:
@@ -356,7 +433,7 @@ class C14(Check):
 
     def alphabet(self):
         ops = [("cn",), ("major",), ("minor",), ("writers",), ("query", ""), ("query", "2"), ("query", "2.002"), ("query", "nope")]
-        ops += [("genotype", w) for w in ("A", "B", "AB", "ACB", "BA")]
+        ops += [("genotype", w) for w in ("A", "B", "D", "AB", "ACB", "BA", "AD", "DA")]
         for cls, name, ai in accessor_alphabet():
             ops.append(("acc", cls, name, ai))
         return ops
@@ -368,6 +445,10 @@ class C14(Check):
         yield ("hist", (("cn",),))
         yield ("hist", (("cn",), ("major",)))
         yield ("hist", (("cn",), ("major",), ("minor",)))
+        # sequences of genotype() calls through the shipped profile with different neutral regions / parameters
+        for i in range(len(GCALLS)):
+            yield ("hist", (("gcall", i),))
+            yield ("hist", (("gload", i),))
         for k in range(8):
             for s in (0, 1):
                 if self.tier == "quick" and s == 1 and k not in (0, 5):
@@ -402,16 +483,25 @@ class C14(Check):
                 for op in sorted(base[pos]):
                     for f in (0.5, 1.3):
                         k += 1
-                        if self.tier == "quick" and k % 3 != self.seed % 3:
+                        if self.tier == "quick" and k % 6 != self.seed % 6:
                             continue
                         yield (f"{pos}{op}x{f}", ("cands2", planted, (("scale", pos, op, f),)))
-            for m in sorted(gene.mutations):
+            for mi_, m in enumerate(sorted(gene.mutations)):
                 if m[1] not in base.get(m[0], {}):
+                    if self.tier == "quick" and mi_ % 2 != self.seed % 2:
+                        continue
                     yield (f"set{m}", ("cands2", planted, (("set", m[0], m[1], 6),)))
             return
         if st[0] != "hist":
             return
         ops = st[1]
+        if ops and ops[0][0] in ("gcall", "gload"):
+            if len(ops) < 2:
+                for j in range(len(GCALLS)):
+                    yield (f"gload{j}", ("hist", ops + (("gload", j),)))
+                    if ops[0][0] == "gcall" and (self.tier == "thorough" or j < 2):
+                        yield (f"gcall{j}", ("hist", ops + (("gcall", j),)))
+            return
         n_extra = len([o for o in ops if o[0] not in ("cn", "major", "minor")])
         if n_extra >= (1 if self.tier == "quick" else 2):
             return       # quick: one operation beyond the stage prefix (thorough: two) - then the digests decide
@@ -490,7 +580,8 @@ class C14(Check):
                 break
         last = results[-1] if results else None
         enabled = last is None or last[1] != ("disabled",)
-        digest = (ctx.digest(), tuple(sorted(set(op for op, r, hb in results if op[0] == "genotype"))))
+        digest = (ctx.digest(), tuple(sorted(set(op for op, r, hb in results if op[0] == "genotype"))),
+                  tuple(op for op, r, hb in results if op[0] in ("gcall", "gload")))
         if not enabled:
             digest = None     # a disabled operation reaches no new state; never expanded: give it a unique dead digest
             return Outcome(v, key=("disabled",), nontrivial=False, digest=("dead",), note={"history": [str(o) for o in ops]})
@@ -521,9 +612,16 @@ class C14(Check):
         if "A" in single and "B" in single:
             want_res = dict(single["A"][1] + single["B"][1])
             want_rows = dict(single["A"][2] + single["B"][2])
-            for multi in ("AB", "ACB", "BA"):
+            if "D" in single:
+                want_ad_res = dict(single["A"][1] + single["D"][1])
+                want_ad_rows = dict(single["A"][2] + single["D"][2])
+            for multi in ("AB", "ACB", "BA", "AD", "DA"):
                 if multi in single:
                     got_res, got_rows = dict(single[multi][1]), dict(single[multi][2])
+                    if multi in ("AD", "DA"):
+                        if "D" in single and (got_res != want_ad_res or got_rows != want_ad_rows):
+                            out.append(("history/multi-gene-differs-from-single-runs", f"{multi}: {single[multi]} vs A {single['A']} + D {single['D']}", ("hist", (("genotype", multi),))))
+                        continue
                     if got_res != want_res or got_rows != want_rows:
                         out.append(("history/multi-gene-differs-from-single-runs", f"{multi}: {single[multi]} vs A {single['A']} + B {single['B']}", ("hist", (("genotype", multi),))))
         # hash seeds
